@@ -259,6 +259,39 @@ Theorem C09_source_order_exact : forall (evs0 : list Z) (r0 : bool) (cs : list c
 Proof. exact (order_sound src_terminate src_restart (proj1 src_programs_safe) (proj1 (proj2 src_programs_safe))). Qed.
 Print Assumptions C09_source_order_exact.
 
+(* "No recorded event is lost": OnTerminate and the instance's own OnTerminated are handlers like any other — an actor may
+   record an event in them. For every routine (list of statements) that passes the check [handlers_recorded] — no handler of
+   the old instance after the last synchronous persist — and has such a persist while the old instance is installed, and for
+   EVERY choice of what each of those handlers records: the journal handed to the last Save is the state the old instance
+   ends with. The condition is part of term_order_ok / restart_order_ok, which the generated instance proves of the statement
+   order extracted from the tree under test on every run (tie T3). *)
+Theorem C09_last_handlers_are_persisted : forall (rec : nat -> list Z) (p : list stmt) (v saved : list Z),
+  handlers_recorded p = true -> existsb is_sync (old_part p) = true ->
+  fst (hexec rec p 0 v saved) = snd (hexec rec p 0 v saved).
+Proof. exact handlers_recorded_sound. Qed.
+Print Assumptions C09_last_handlers_are_persisted.
+
+Theorem C09_extracted_order_records_last_handlers : forall (ft fr : list fact), term_order_ok ft = true -> restart_order_ok fr = true ->
+  handlers_recorded (prog_of ft) = true /\ handlers_recorded (prog_of fr) = true.
+Proof. exact facts_handlers_recorded. Qed.
+Print Assumptions C09_extracted_order_records_last_handlers.
+
+(* the seeded order — persist first, then the old instance's OnTerminate and OnTerminated — is rejected, and loses what the
+   handlers record: the old instance ends with [1; 2; 7; 8], the journal that was saved is [1; 2] *)
+Theorem C09_persist_before_last_handlers_refuted :
+  handlers_recorded restart_persist_before_last_handlers' = false /\
+  order_safe restart_persist_before_last_handlers' = true /\
+  hexec (fun k => [7 + Z.of_nat k]%Z) restart_persist_before_last_handlers' 0 [1; 2]%Z [] = ([1; 2; 7; 8]%Z, [1; 2]%Z).
+Proof. repeat split; vm_compute; reflexivity. Qed.
+Print Assumptions C09_persist_before_last_handlers_refuted.
+
+(* non-vacuity: the order of the source as documented passes, with a persist while the old instance is installed *)
+Example C09_example_handlers_recorded :
+  handlers_recorded src_terminate = true /\ existsb is_sync (old_part src_terminate) = true /\
+  handlers_recorded src_restart = true /\ existsb is_sync (old_part src_restart) = true /\
+  hexec (fun k => [7 + Z.of_nat k]%Z) src_restart 0 [1; 2]%Z [] = ([1; 2; 7; 8]%Z, [1; 2; 7; 8]%Z).
+Proof. repeat split; vm_compute; reflexivity. Qed.
+
 (* the form used by the generated instance: facts extracted from a source tree that pass [term_order_ok] /
    [restart_order_ok] (persists unconditional, order safe, every announce statement found) *)
 Theorem C09_extracted_order_sound : forall (ft fr : list fact), term_order_ok ft = true -> restart_order_ok fr = true ->
